@@ -91,6 +91,9 @@ func (e *Engine) prelude() string {
 		}
 		fmt.Fprintf(&sb, "(declare-fun %s (%s) %s)\n", n, strings.Join(srt, " "), ss[len(ss)-1])
 	}
+	for _, hs := range heapSorts {
+		fmt.Fprintf(&sb, "(declare-const FG_%s %s)\n", sortTag(hs), heapSort(hs))
+	}
 	sb.WriteString(e.extraPrelude())
 	return sb.String()
 }
@@ -100,7 +103,14 @@ func (fc *FnCtx) query(o *Oblig) string {
 	var sb strings.Builder
 	sb.WriteString("(set-option :produce-models true)\n(set-logic ALL)\n")
 	sb.WriteString(fc.eng.prelude())
-	sb.WriteString(fc.eng.specDefsText(fc.usedSpecs, nil))
+	var opq map[string]bool
+	if fc.opaqueRec {
+		opq = map[string]bool{}
+		for n := range fc.eng.specDefs {
+			opq[n] = true
+		}
+	}
+	sb.WriteString(fc.eng.specDefsText(fc.usedSpecs, opq))
 	anc := fc.anc[o.blk]
 	inScope := func(b int) bool { return o.blk == -2 || b == -1 || b == o.blk || anc[b] }
 	for _, d := range fc.decls {
@@ -121,7 +131,7 @@ func (fc *FnCtx) query(o *Oblig) string {
 		case o.blk == -2:
 			use = !f.isAssert
 		case f.blk == -1:
-			use = true
+			use = o.blk != -1 || f.seq < o.seq
 		case f.blk == o.blk:
 			use = f.seq < o.seq
 		case anc[f.blk]:
